@@ -51,12 +51,22 @@ PrefAddrVerdict(body) ==
        ELSE IF \A i \in 1..24 : body[i] = 0 THEN "either"     \* no address at all: the RFC is silent
        ELSE "accept"
 
+\* connection-id valued parameters.  Named "either" ranges: an original_destination_connection_id
+\* shorter than 8 bytes can never equal a client's first Destination Connection ID (RFC 9000 7.2), and
+\* s2n-quic does not support Retry source connection ids shorter than 4 bytes (its own id policy);
+\* the RFC text does not make either case a parameter error, so neither outcome is an alarm.
+CidVerdict(id, n) ==
+  IF n > 20 THEN "reject"
+  ELSE IF id = Id(0) /\ n < 8 THEN "either"
+  ELSE IF id = Id(16) /\ n < 4 THEN "either"
+  ELSE "accept"
+
 EntryVerdict(role, e) ==
   IF e.id \in ExtensionIds THEN "either"
   ELSE IF e.id \notin KnownIds THEN "accept"                       \* unknown parameters are ignored
   ELSE IF role = "client" /\ e.id \in ServerOnly THEN "reject"
   ELSE IF e.id \in IntegerIds THEN (LET b == IntBody(e.body) IN IF b.ok THEN IntVerdict(e.id, b.val) ELSE "reject")
-  ELSE IF e.id \in CidIds THEN (IF Len(e.body) <= 20 THEN "accept" ELSE "reject")
+  ELSE IF e.id \in CidIds THEN CidVerdict(e.id, Len(e.body))
   ELSE IF e.id = Id(2) THEN (IF Len(e.body) = 16 THEN "accept" ELSE "reject")
   ELSE IF e.id = Id(12) THEN (IF Len(e.body) = 0 THEN "accept" ELSE "either")
   ELSE PrefAddrVerdict(e.body)
@@ -70,6 +80,13 @@ Verdict(role, bytes) ==
   ELSE LET vs == {EntryVerdict(role, p.entries[i]) : i \in 1..Len(p.entries)} IN
        IF Duplicate(p.entries) \/ "reject" \in vs THEN "reject"
        ELSE IF "either" \in vs THEN "either" ELSE "accept"
+
+\* known finding F6: an integer parameter in a longer-than-minimal (but legal, RFC 9000 section 16)
+\* varint form; s2n-quic decodes ack_delay_exponent as a single byte
+HasNonMinimalAckDelayExponent(bytes) ==
+  LET p == Parse(bytes) IN
+  p.ok /\ \E i \in 1..Len(p.entries) : p.entries[i].id = Id(10) /\ Len(p.entries[i].body) > 1
+           /\ IntBody(p.entries[i].body).ok /\ BigLe(IntBody(p.entries[i].body).val, BigOfNat(20))
 
 \* ---------------------------------------------------------------- effective limits
 Lookup(entries, id, default) ==
